@@ -127,6 +127,13 @@ def make_cases(rng, n):
                 want = codec.bech32_encode('bcrt', [1] + codec.convertbits(p, 8, 5), const)
                 add('%s %s' % (nm, hex_tok(p)), nm, eq('"%s"' % want), inline=('%s(%s)' % (inl, hex_tok(p))) if inl else None, inline_str=want)
                 add('bech32-decode %s' % want, 'bech32-decode', lambda so, se, p=p: None if so.strip().splitlines()[-1:] == [p.hex()] else 'decode(encode(x)) != x: ' + so[:80])
+                # BIP173: an all-uppercase string is the same encoding (decoders must accept it); mixed case is invalid
+                add('bech32-decode %s' % want.upper(), 'bech32-decode:uppercase', lambda so, se, p=p: None if so.strip().splitlines()[-1:] == [p.hex()] else 'decode(UPPER(encode(x))) != x: ' + so[:80] + ' | ' + se[:60])
+                # other human-readable parts and witness versions decode just as well
+                hrp2, ver2 = rng.choice(['bc', 'tb', 'a', 'x' * 10]), rng.choice([0, 2, 16])
+                p2 = rb(rng, 20 if ver2 == 0 else rng.choice([2, 20, 32, 40]))
+                add('bech32-decode %s' % codec.bech32_encode(hrp2, [ver2] + codec.convertbits(p2, 8, 5), codec.BECH32_CONST if ver2 == 0 else const), 'bech32-decode:other-hrp',
+                    lambda so, se, p2=p2: None if so.strip().splitlines()[-1:] == [p2.hex()] else 'decode of a valid string with another hrp/version differs: ' + so[:80] + ' | ' + se[:60])
                 j = rng.randrange(len('bcrt1'), len(want))
                 alt = rng.choice([c for c in codec.CHARSET if c != want[j]])
                 bad = want[:j] + alt + want[j + 1:]
